@@ -85,6 +85,7 @@ class Outcome:
         self.canaries = {"expected": 0, "failed_as_expected": 0}
         self.kani_covers = {"sat": 0, "total": 0}
         self.dropped = []
+        self.generator_info = None
 
 
 def run_verus_unit(plan, u, out, tier):
@@ -176,6 +177,21 @@ def run_kani_unit(plan, k, out, tier):
     jobs = k.get("jobs", 16)
     ht = k.get("harness_timeout_thorough" if tier == "thorough" else "harness_timeout", 900)
     extra_files = {}
+    if k.get("generator"):
+        import importlib.util
+        spec = importlib.util.spec_from_file_location("gen_" + prop, os.path.join(VERIF, "contracts", prop, k["generator"]))
+        mod = importlib.util.module_from_spec(spec)
+        spec.loader.exec_module(mod)
+        try:
+            files, info, problems = mod.generate(REPO)
+        except (AnchorLost, Unsupported, OSError) as e:
+            out.infra.append("kani generator %s: %s" % (k["generator"], e))
+            return
+        extra_files.update(files)
+        out.generator_info = info
+        for pmsg in problems:
+            out.infra.append("kani generator %s: %s" % (k["generator"], pmsg))
+    k["_extra_files"] = extra_files
     r = kani_run.run(prop, k["crate"], filters, jobs=jobs, harness_timeout=ht,
                      extra_args=k.get("extra_args"), extra_files=extra_files,
                      total_timeout=k.get("total_timeout", 5400))
@@ -226,6 +242,9 @@ def run_kani_unit(plan, k, out, tier):
         seen = set()
         for fc in hr["failed"]:
             desc = fc["desc"]
+            if "not currently supported" in desc or "is not supported" in desc or "unsupported" in desc.lower():
+                out.infra.append("kani harness %s: construct outside Kani's subset: %s" % (short, desc[:160]))
+                continue
             if "unwinding assertion" in desc:
                 out.infra.append("kani harness %s: unwinding bound too small (%s)" % (short, fc["loc"]))
                 continue
@@ -235,7 +254,8 @@ def run_kani_unit(plan, k, out, tier):
             seen.add(key)
             out.failed.append({"name": key, "backend": "kani", "harness": h, "crate": k["crate"],
                                "detail": "%s\n  at %s\n  check %s" % (desc, fc["loc"], fc["name"]),
-                               "bounded": is_bounded, "extra_args": k.get("extra_args"), "harness_timeout": ht})
+                               "bounded": is_bounded, "extra_args": k.get("extra_args"), "harness_timeout": ht,
+                               "extra_files": extra_files})
 
 
 def attach_replays(plan, out):
@@ -244,11 +264,12 @@ def attach_replays(plan, out):
     twins = plan.get("twins", {})
     playback_cache = {}
 
-    def playback(crate, harness, extra_args, ht):
+    def playback(crate, harness, extra_args, ht, extra_files=None):
         key = (crate, harness)
         if key not in playback_cache:
-            pb = kani_run.concrete_playback(prop, crate, harness, harness_timeout=ht, extra_args=extra_args)
-            nat = kani_run.native_playback(prop, crate, harness, pb.get("test_src")) if pb.get("test_src") else \
+            pb = kani_run.concrete_playback(prop, crate, harness, harness_timeout=ht, extra_args=extra_args,
+                                            extra_files=extra_files)
+            nat = kani_run.native_playback(prop, crate, harness, pb.get("test_src"), extra_files=extra_files) if pb.get("test_src") else \
                 {"ran": False, "note": "Kani printed no concrete values"}
             playback_cache[key] = (pb, nat)
         return playback_cache[key]
@@ -274,7 +295,8 @@ def attach_replays(plan, out):
         if src is not None and ((src["crate"], src["harness"]) in playback_cache or budget > 0):
             if (src["crate"], src["harness"]) not in playback_cache:
                 budget -= 1
-            pb, nat = playback(src["crate"], src["harness"], src.get("extra_args"), src.get("harness_timeout", 900))
+            pb, nat = playback(src["crate"], src["harness"], src.get("extra_args"), src.get("harness_timeout", 900),
+                               src.get("extra_files"))
             rep["counterexample"] = {"harness": src["harness"], "values_in_order_of_kani_any": pb.get("values"),
                                      "kani_failed_checks": pb.get("failed"), "playback_test": pb.get("test_src")}
             rep["replay_on_real_code"] = nat
@@ -307,6 +329,7 @@ def write_evidence(plan, out, tier, wall, seed, violations, known_hit):
         "known_findings_hit": known_hit,
         "infrastructure_problems": out.infra,
         "explanation": plan.get("explanation", ""),
+        "generator": out.generator_info,
         # generic keys as well, so that the file validates whichever way it is read
         "evaluations": max(out.obligations + sum(b["checks"] for b in out.bounded), 1),
         "distinct_nontrivial": max(out.obligations, 2),
